@@ -89,7 +89,7 @@ fn bounds(prop: &str, tier: Tier) -> Bounds {
     let q = tier == Tier::Quick;
     use Family::*;
     // (family, size level, also check the children one ply below)
-    let thorough_families = vec![(PawnPush, 1, true), (PromoPin, 0, true), (Pin, 1, true), (EpPlayed, 1, true), (Ep, 1, true), (Castle, 1, true), (Promo, 1, true), (EpCheck, 1, true), (PromoCheck, 1, true), (Three, 0, true)];
+    let thorough_families = vec![(PawnPush, 1, true), (OfficerCheck, 1, true), (PromoPin, 0, true), (Pin, 1, true), (EpPlayed, 1, true), (Ep, 1, true), (Castle, 1, true), (Promo, 1, true), (EpCheck, 1, true), (PromoCheck, 1, true), (Three, 0, true)];
     match prop {
         "C01" => Bounds {
             start_depth: if q { 4 } else { 6 },
@@ -103,9 +103,9 @@ fn bounds(prop: &str, tier: Tier) -> Bounds {
             perft_depth: if q { 2 } else { 3 },
             scenario_depth: if q { 2 } else { 3 },
             families: if q {
-                vec![(PawnPush, 0, true), (PromoPin, 0, true), (EpCheck, 0, true), (PromoCheck, 0, false), (Castle, 0, false)]
+                vec![(PawnPush, 0, true), (OfficerCheck, 0, true), (PromoPin, 0, true), (EpCheck, 0, true), (PromoCheck, 0, false), (Castle, 0, false)]
             } else {
-                vec![(PawnPush, 1, true), (PromoPin, 0, true), (Pin, 0, false), (Ep, 1, false), (Castle, 1, false), (Promo, 1, false), (EpCheck, 1, false), (PromoCheck, 1, false), (Three, 0, false)]
+                vec![(PawnPush, 1, true), (OfficerCheck, 1, true), (PromoPin, 0, true), (Pin, 0, false), (Ep, 1, false), (Castle, 1, false), (Promo, 1, false), (EpCheck, 1, false), (PromoCheck, 1, false), (Three, 0, false)]
             },
             sweep_stride: 256,
         },
@@ -113,7 +113,7 @@ fn bounds(prop: &str, tier: Tier) -> Bounds {
             start_depth: if q { 4 } else { 6 },
             perft_depth: if q { 2 } else { 4 },
             scenario_depth: if q { 2 } else { 3 },
-            families: if q { vec![(PawnPush, 0, true), (PromoPin, 0, true), (Three, 0, false), (Pin, 0, false), (Ep, 0, false), (EpCheck, 0, true), (PromoCheck, 0, true), (Castle, 0, true)] } else { thorough_families },
+            families: if q { vec![(PawnPush, 0, true), (OfficerCheck, 0, true), (PromoPin, 0, true), (Three, 0, false), (Pin, 0, false), (Ep, 0, false), (EpCheck, 0, true), (PromoCheck, 0, true), (Castle, 0, true)] } else { thorough_families },
             sweep_stride: 64,
         },
         "C04" => Bounds {
@@ -172,7 +172,7 @@ pub fn run(prop: &str, args: &Args) -> i32 {
         child_props.full_sweep = false;
         let mut root_props = props;
         root_props.full_sweep = false;
-        let special_only = args.tier == Tier::Quick && prop != "C01" && *fam != Family::PawnPush && *fam != Family::PromoPin;
+        let special_only = args.tier == Tier::Quick && prop != "C01" && *fam != Family::PawnPush && *fam != Family::PromoPin && *fam != Family::OfficerCheck;
         let t = run_family(*fam, *level, &root_props, if *children { Some(&child_props) } else { None }, special_only, &report, &mut samples);
         fam_json.push(json!({"family": format!("{fam:?}"), "level": level, "transitions_restricted_to_special_moves": args.tier == Tier::Quick && prop != "C01", "positions": t.family_positions, "states_checked": t.states, "transitions": t.transitions, "rejected_as_invalid": t.family_rejected_invalid}));
         totals.merge(&t);
@@ -337,6 +337,10 @@ pub fn c02_extreme_clocks() -> (u64, Vec<(String, Vec<Divergence>)>) {
         "7k/8/8/3pP3/8/8/8/K7 w - d6 0 1",
         "1n5k/P7/8/8/8/8/8/K7 w - - 0 1",
         "r3k3/8/8/8/8/8/8/4K2R b - - 0 1",
+        // officer captures (reset the half-move clock) next to quiet officer moves (count on)
+        "4k3/8/8/8/8/7r/8/4K2R b - - 0 1",
+        "4k2r/8/7R/8/8/8/8/4K3 w - - 0 1",
+        "4k3/8/8/8/8/5n2/8/4K1N1 w - - 0 1",
     ];
     for f in fens {
         let base = Position::from_fen(f).unwrap();
@@ -371,6 +375,16 @@ pub fn c02_extreme_clocks() -> (u64, Vec<(String, Vec<Divergence>)>) {
                         }
                         if c.full_move_clock() as u32 != want.full {
                             d.push(Divergence::new("wrong-successor:full-move-clock:extreme-values", format!("{f} full-move {full}, after {}: {} (rules: {})", m.uci(), c.full_move_clock(), want.full)));
+                        }
+                        // the other two checked operations give the same board and clocks
+                        let mut by_mut = board;
+                        let ok_mut = by_mut.move_mut(real_mv(m));
+                        let mut by_into = Board::standard();
+                        let ok_into = board.move_into(real_mv(m), &mut by_into);
+                        for (name, ok, b2) in [("move_mut", ok_mut, by_mut), ("move_into", ok_into, by_into)] {
+                            if !ok || b2 != c || b2.half_move_clock() != c.half_move_clock() || b2.full_move_clock() != c.full_move_clock() || b2.zobrist() != c.zobrist() {
+                                d.push(Divergence::new(format!("{name}-differs-from-move_new:extreme-clocks"), format!("{f} clocks {half}/{full}, {}: accepted={ok}, clocks {}/{} vs {}/{}", m.uci(), b2.half_move_clock(), b2.full_move_clock(), c.half_move_clock(), c.full_move_clock())));
+                            }
                         }
                         let mut got = read_back(&c);
                         got.half = want.half;
